@@ -582,11 +582,11 @@ def run_cases(ctx: Ctx, cases, props, label="random", known_sig=None):
             errs = (i1.get("tr") or {}).get("lookup_errors") or {}
             hit = [q for q in (m1.get("tr") or {}).get("choices", {}) if q in errs]
             if hit:
-                pred_fail.append({"prop": "C17", "why": "looking up a traced address in the trace's own choice map raised",
-                                  "paths": [str(q) for q in hit], "error": str(errs[hit[0]])[:160]})
+                if not any(f["prop"] == "C17" for f in pred_fail):
+                    pred_fail.append({"prop": "C17", "why": "looking up a traced address in the trace's own choice map raised",
+                                      "paths": [str(q) for q in hit], "error": str(errs[hit[0]])[:160]})
                 for q in hit:
                     m1["tr"]["choices"].pop(q, None)
-                break
         for f in pred_fail:
             sig = signature(case, f)
             ctx.fail("predicate", _jsonable(case), f, sig, "property predicate on implementation")
